@@ -1096,6 +1096,7 @@ def inline_helpers(trees: Dict[str, ast.Module], anchors: Optional[Set[str]] = N
     notes += specialise_unused_defaults(trees)
     notes += inline_package_constants(trees)
     notes += unroll_dispatch_tables(trees)
+    notes += inline_local_atom_tables(trees)
     for t_ in trees.values():
         _fold_constants(t_)  # getattr(x, "name") / tuple sums that the unrolling has made constant
     notes += dissolve_parameter_objects(trees)
@@ -1503,6 +1504,44 @@ def read_through_stable_fields(trees: Dict[str, ast.Module]) -> List[str]:
                 if not hit:
                     break
     return [f"stable fields {sorted(stable)}: {n_sites} local alias(es) read as the field"] if n_sites else []
+
+
+def inline_local_atom_tables(trees: Dict[str, ast.Module]) -> List[str]:
+    """`classes = (ast.Break, ast.Continue, ast.Pass)` bound once at the top level of a function (not in a loop)
+    and only read afterwards: read as the display at each use (`isinstance(node, classes)`)."""
+    n_sites = 0
+    for t in trees.values():
+        for fn in [x for x in ast.walk(t) if isinstance(x, _FUNC)]:
+            stores: Dict[str, int] = {}
+            for x in _own_nodes(fn):
+                if isinstance(x, ast.Name) and isinstance(x.ctx, (ast.Store, ast.Del)):
+                    stores[x.id] = stores.get(x.id, 0) + 1
+            nested = {y.id for x in ast.walk(fn) if x is not fn and isinstance(x, _FUNC + (ast.Lambda,)) for y in ast.walk(x) if isinstance(y, ast.Name)}
+            for st in list(fn.body):
+                if isinstance(st, ast.Assign) and len(st.targets) == 1 and isinstance(st.targets[0], ast.Name) and isinstance(st.value, ast.Tuple) and _atom_table(st.value) \
+                        and all(isinstance(e, ast.Attribute) for e in st.value.elts) and stores.get(st.targets[0].id) == 1 and st.targets[0].id not in nested:
+                    nm = st.targets[0].id
+                    val = st.value
+
+                    class _S(ast.NodeTransformer):
+                        def __init__(self):
+                            self.n = 0
+
+                        def visit_Name(self, n: ast.Name):
+                            if n.id == nm and isinstance(n.ctx, ast.Load):
+                                self.n += 1
+                                return ast.copy_location(copy.deepcopy(val), n)
+                            return n
+
+                    tr = _S()
+                    idx = fn.body.index(st)
+                    for j in range(idx + 1, len(fn.body)):
+                        fn.body[j] = tr.visit(fn.body[j])
+                    if tr.n:
+                        fn.body.remove(st)
+                        n_sites += tr.n
+                        ast.fix_missing_locations(fn)
+    return [f"{n_sites} read(s) of a local table of classes read as the display"] if n_sites else []
 
 
 def _atom_table(v: ast.AST) -> bool:
